@@ -221,6 +221,16 @@ def gen_cases(col, kind, ents, tier):
                     yield ('%s %s %s' % (col, OPSETS[op][0], lit), (lambda e, col=col, op=op, v=v: num_cmp(op, e[col], v)), 'num-literal-shape')
         yield ('size between 0.5 and 1.5', (lambda e: 0.5 <= e['size'] <= 1.5), 'num-literal-shape')
         yield ('size between 2.01kb and 0.1m', (lambda e: 2010 <= e['size'] <= 104857.6), 'num-literal-shape')
+        # the same digits with both signs in one condition (each literal is its own number)
+        for k in (5, 12, 1, 100):
+            for col, f in (('size - 10', lambda e: e['size'] - 10), ('hardlinks - 2', lambda e: e['hardlinks'] - 2), ('size', lambda e: e['size']),
+                           ('length(name) - 8', lambda e: e['length(name)'] - 8)):
+                yield ('%s > -%d and %s < %d' % (col, k, col, k), (lambda e, f=f, k=k: -k < f(e) < k), 'signed-literal-pair')
+                yield ('%s < %d and %s > -%d' % (col, k, col, k), (lambda e, f=f, k=k: -k < f(e) < k), 'signed-literal-pair')
+                yield ('%s between -%d and %d' % (col, k, k), (lambda e, f=f, k=k: -k <= f(e) <= k), 'signed-literal-pair')
+                yield ('%s < -%d or %s > %d' % (col, k, col, k), (lambda e, f=f, k=k: f(e) < -k or f(e) > k), 'signed-literal-pair')
+                yield ('%s = %d or %s = -%d' % (col, k, col, k), (lambda e, f=f, k=k: f(e) in (k, -k)), 'signed-literal-pair')
+                yield ('-%d < %s and %d > %s' % (k, col, k, col), (lambda e, f=f, k=k: -k < f(e) < k), 'signed-literal-pair')
         # the empty text
         for col in ('ext', 'name'):
             for sp, f in (('=', lambda a: a == ''), ('!=', lambda a: a != ''), ('===', lambda a: a == ''), ('!==', lambda a: a != ''),
@@ -231,6 +241,14 @@ def gen_cases(col, kind, ents, tier):
         for a, b in (('name', 'ext'), ('dir', 'name'), ('name', 'dir'), ('path', 'name'), ('ext', 'name')):
             yield ('%s = %s' % (a, b), (lambda e, a=a, b=b: e[a] == e[b]), 'col-col-text')
             yield ('%s != %s' % (a, b), (lambda e, a=a, b=b: e[a] != e[b]), 'col-col-text')
+        # ... also next to a wildcard literal that spells the name of an entry (what one clause compiled must not serve the other)
+        for lit in ('?', '???', '*', '????', 'q.?', '*.txt', 'a*'):
+            for gcol in ('name', 'ext'):
+                for a, b in (('dir', 'name'), ('name', 'ext'), ('path', 'name'), ('name', 'dir')):
+                    g = (lambda e, lit=lit, gcol=gcol: mt.glob_match(lit, e[gcol]))
+                    yield ("%s = '%s' or %s = %s" % (gcol, lit, a, b), (lambda e, g=g, a=a, b=b: g(e) or e[a] == e[b]), 'col-col-beside-glob')
+                    yield ("%s = %s or %s = '%s'" % (a, b, gcol, lit), (lambda e, g=g, a=a, b=b: g(e) or e[a] == e[b]), 'col-col-beside-glob')
+                    yield ("%s != '%s' and %s != %s" % (gcol, lit, a, b), (lambda e, g=g, a=a, b=b: (not g(e)) and e[a] != e[b]), 'col-col-beside-glob')
     elif kind == 'colcol':
         pairs = [('size', 'hardlinks'), ('uid', 'gid'), ('size', 'length(name)'), ('hardlinks', 'length(name)'), ('gid', 'size')]
         for a, b in pairs:
